@@ -310,8 +310,7 @@ void TigaPropertyBuilder::typeProperty(expression_t expr)
 
     properties.back().subjections = subjections;
     properties.back().imitation = _imitation;
-    subjections.clear();
-    _imitation = nullptr;
+    dropClauses();
 
     switch (expr.get_kind()) {
     case LOAD_STRAT:
@@ -444,6 +443,32 @@ void TigaPropertyBuilder::typeProperty(expression_t expr)
         //    throw UTAP::TypeException("$Stop_watches_are_not_yet_supported_in_TIGA");
     }
 };
+
+void TigaPropertyBuilder::dropClauses()
+{
+    subjections.clear();
+    _imitation = nullptr;
+}
+
+void TigaPropertyBuilder::property()
+{
+    // The `under`/`imitate` clauses belong to this query alone: drop them also when no property is
+    // created for it, otherwise they would be attached to the next query parsed with this builder.
+    try {
+        PropertyBuilder::property();
+    } catch (...) {
+        dropClauses();
+        throw;
+    }
+    dropClauses();
+}
+
+void TigaPropertyBuilder::handle_error(const UTAP::TypeException& ex)
+{
+    PropertyBuilder::handle_error(ex);
+    // A query that reports an error creates no property, and a syntax error ends it before property().
+    dropClauses();
+}
 
 void TigaPropertyBuilder::strategy_declaration(const char* id)
 {
